@@ -28,7 +28,8 @@ Template directives (all start with `//@@`; payloads in <<< >>> may span lines):
   //@@ R12                               rule R12: code under #[cfg(feature = "tracing")] removed (feature off), #[allow(..)] dropped
   //@@ R10 <writer-ident> [expr] [mode=record]   rule R10, mechanical (mode=record: literals are cut at `,` and newline only, every other piece is an emit_lit): every write!/writeln!(W, FMT, ..) / W.write_all(b"..") becomes the
                                          sequence of typed emissions it performs (see r10_edits)
-  //@@ CUT <<<start>>> <<<end>>>          drop the source text from `start` up to (not including) `end`;
+  //@@ CUT <<<start>>> <<<end>>>          drop the source text from `start` up to (not including) `end` -- except its exits
+                                         (rule R13: each `return E;` in it is kept as `if cut_region_exit() { return E; }`);
                                          the number of dropped lines is reported in the evidence
   //@@ BEFOREEACH <<<anchor>>> <<<text>>>  insert ghost text before EVERY occurrence of anchor (none is fine)
   //@@ CUTBLOCK <<<anchor>>> <<<text>>>   the contents of the first `{ .. }` block after `anchor` (brace-matched)
@@ -471,6 +472,32 @@ def drop_dead_lets(body, log):
     return body
 
 
+def _kept_exits(region, log):
+    """R13: a CUT region is dropped, but its EXITS are not: every `return E;` in it (outside nested fn
+    items) is kept as `if cut_region_exit() { return E; }` -- the dropped code may or may not take it."""
+    from extract import match_close
+    m = mask(region)
+    # blank out nested fn items
+    mm = list(m)
+    for f in re.finditer(r'\bfn\s+\w+', m):
+        o = m.find('{', f.end())
+        if o >= 0:
+            try:
+                c = match_close(m, o)
+            except LostAnchor:
+                continue
+            for k in range(f.start(), c + 1):
+                if mm[k] != '\n':
+                    mm[k] = ' '
+    m2 = ''.join(mm)
+    out = []
+    for r in re.finditer(r'\breturn\b([^;]*);', m2):
+        expr = region[r.start(1):r.end(1)].strip()
+        out.append(f'if cut_region_exit() {{ return {expr}; }}')
+        log['R13 exit of a CUT region kept'] = log.get('R13 exit of a CUT region kept', 0) + 1
+    return ' '.join(out)
+
+
 def _cut_regions(body, msk, dirs):
     """source ranges removed by CUT / CUTBLOCK directives (write! calls inside them are not rewritten)"""
     from extract import match_close
@@ -544,7 +571,7 @@ def transform_body(body, dirs, log):
             b = body.find(end, a + len(start))
             if b < 0:
                 raise LostAnchor(f'CUT end anchor {end!r} not found')
-            edits.append((a, b, ''))
+            edits.append((a, b, _kept_exits(body[a:b], log)))
             log['CUT (source lines dropped)'] = log.get('CUT (source lines dropped)', 0) + body[a:b].count('\n')
         elif kind == 'FORWHILE':
             n = d[1]
@@ -581,7 +608,7 @@ def transform_body(body, dirs, log):
                 raise LostAnchor(f'CUTBLOCK anchor {anchor!r}: no block follows')
             from extract import match_close
             c = match_close(msk, o)
-            edits.append((o + 1, c, ' ' + rep + ' '))
+            edits.append((o + 1, c, ' ' + rep + ' ' + _kept_exits(body[o + 1:c], log)))
             log['CUT (source lines dropped)'] = log.get('CUT (source lines dropped)', 0) + body[o:c].count('\n')
         elif kind == 'R7':
             cuts = []
